@@ -9,7 +9,6 @@ from fractions import Fraction as Fr
 from core import *
 
 NEEDS = ["Heap", "Values", "ValuesProofs", "Corr"]
-GUARD = "no_inplace_edge_template"
 
 # operator library: ONE OperatorTemplate object per name in a circuit (D26); every operator has exactly one state variable
 # and at most one input variable, and is affine in the input so that edge sums can be read off dy exactly
@@ -225,7 +224,7 @@ def resolve(case, pat):
             return res
         ch = dict(c["children"])
         if pat[0] not in ch:
-            return None
+            return []              # fix D73: a level the circuit does not have matches no node
         r = go(ch[pat[0]], pat[1:])
         return None if r is None else [((pat[0],) + p, nj) for p, nj in r]
     return go(len(case["circs"]) - 1, list(pat))
@@ -301,7 +300,7 @@ def gen_case(rng, maxlen):
         if rng.random() < 0.08:
             pat[-1] = rng.choice(node_names)          # possibly absent in some branch: skipped (leaf level)
         if depth >= 1 and rng.random() < 0.04:
-            pat[0] = "c9"                              # absent at an inner level: KeyError
+            pat[0] = "c9"                              # absent at an inner level: matches nothing (fix D73)
         return pat
     def rand_target(need_all):
         for _ in range(20):
@@ -423,7 +422,7 @@ Definition ccase := (nat * id * heap * list string * list hop * list pyout)%type
 Definition okI (c : ccase) := let '(d, r, h, inputs, ops, pys) := c in outs_ok inputs (snd (runI d (init_state h r) ops)) pys.
 Definition okS (c : ccase) := let '(d, r, h, inputs, ops, pys) := c in
   match abs d h r with Some t => outs_ok inputs (snd (runS d t ops)) pys | None => false end.
-Definition guard (c : ccase) := let '(d, r, h, inputs, ops, pys) := c in no_inplace_edge_template ops.
+Definition guard (c : ccase) := true.
 Definition wf (c : ccase) := let '(d, r, h, inputs, ops, pys) := c in
   match abs d h r with Some t => true | None => false end.
 """
@@ -570,14 +569,10 @@ def check(ctx):
     badI = [good[i] for i in badI]; badS = [good[i] for i in badS]; gfalse = [good[i] for i in gfalse]
     assert not ill, f"generator produced an ill-formed store: {ill[:5]}"
     ctx.note(f"E1: {len(cases)} histories, {sum(len(c['hist']) + 1 for c in cases)} operations; impl-vs-Impl mismatches {len(badI)}, "
-             f"impl-vs-Spec mismatches {len(badS)} (of which outside the guard {GUARD}: {len([i for i in badS if i in gfalse])}), "
-             f"harness/worker errors {len(crashed)}; histories outside the guard: {len(gfalse)}; "
+             f"impl-vs-Spec mismatches {len(badS)}, harness/worker errors {len(crashed)}; "
+             f"histories with update_template(edges, in_place=True): {sum(1 for c in cases if any(h[0] == 'updtpl' and h[1] and h[3] for h in c['hist']))}; "
              f"histories with a sub-circuit object registered under two names: {sum(1 for c in cases if shared_subcircuit(c))}")
-    def witness_check(f):
-        w = json.load(open(os.path.join(VERIF, f["witness"])))
-        return fails(ctx, w, "wit")[0]
     conclude(ctx, cases=cases, impl_out=outs, bad_spec=badS, bad_impl=badI, crashed=crashed, problem=problem,
-             guard_viol={i: [GUARD] for i in gfalse}, witness_check=witness_check,
              spec_name="Values.runS (updates on the unshared tree: exactly the addressed paths change)", impl_name="Values.runI",
              shrink=lambda c: shrink(ctx, c),
              show=lambda c: (lambda r: dict(implementation_output=r, model_output=model_outputs(ctx, c, r, "show") if not isinstance(r, dict) else None))(fails(ctx, c, "show")[1]))
